@@ -269,3 +269,13 @@ Theorem walk_complete_nested :
     (forall k, 0 <= k < L -> exists c, 0 < c /\ res_at g k = c * res_at g (k + 1)) ->
     In (point_meta g msx msy px py L) (procs (geo_walk g msx msy cov skipk levels root None)).
 Proof. exact walk_complete_nested_lemma. Qed.
+
+(* ---- stopping through SeedProgress.running() *)
+
+(* run_walk_s models the walker including the StopProcess path (the hook answers False at a chosen _walk call); it is
+   compared with the real walker on stopped and continued runs.  With a hook that never answers False it is exactly the
+   walker all theorems above are about.  NOT proved: that a stopped run followed by a continued run covers everything
+   (the harness checks it on the implementation for sampled / all stop points). *)
+Theorem never_stopping_hook_is_plain_walk :
+  forall old tree final_lv, run_walk_s old tree final_lv None = run_walk old tree final_lv.
+Proof. exact run_walk_s_never. Qed.
